@@ -7,6 +7,42 @@ ROOT = os.path.dirname(os.path.dirname(os.path.abspath(__file__)))
 ALL = ['C%02d' % i for i in range(1, 21)]
 
 CHECKS = {
+    'C14': dict(
+        text='Lean 4 theorems over ALL argument lists of the Union model (Model/Union.lean: None filtering, type and dimension '
+             'checks, flattening, set + sort by str, degenerate cases; complement; render; iteration as a world of independent '
+             'iterators): union_set_semantics (the result lists exactly the members of the arguments, once each, sorted), '
+             'union_perm_invariant / union_comm / union_str_perm_invariant (value, refusal and printed form do not depend on the '
+             'argument order), union_nest / union_flatten / union_assoc (any nesting of unions flattens, any number and size of '
+             'groups), union_idem, union_dup_collapse, union_empty (None) and union_singleton (the member itself), '
+             'mixed_dim_refused / non_domain_refused / union_total, complement_spec / complement_members (removes exactly the '
+             'given members), iter_independent / iter_each_once (for every sequence of iterator creations and next() calls in any '
+             'interleaving each iterator yields every member once, in order, then stops), legacy_shared_index_loses (regression '
+             'counterexample for the old shared index). Model tied to sympde.topology.basic.Union by a differential run on every '
+             'real Union(...) call of random nested programs and on random operation sequences; independent frozenset oracle.',
+        note='Order-related theorems assume str() injective on the members that meet (name hygiene; identity by name is C12) and '
+             'that a Union object passed as argument has members of one dimension (proved of every result: union_result_wf). '
+             'Trusted: Lean kernel, the harness/serialiser, Python set/sorted/str-comparison = dedup + stable insertion sort on '
+             'code-point order (compared on every case).',
+        technique='Lean 4 proof (induction on argument lists and operation sequences, canonical-list extensionality) + differential correspondence',
+        design='6/C14'),
+    'C15': dict(
+        text='Lean 4 theorems over ALL exportable domains of the export model (Model/Export.lean: NCube constructors with their '
+             'validity checks, todict of Domain / InteriorDomain / Boundary / Union / Connectivity, Domain.from_file through '
+             'constructors, Mapping call, get_boundary and Domain.join with its interface-naming, orientation and boundary-complement '
+             'rules): roundtrip (fromDict (toDict d) succeeds and equals d up to the insertion order of the connectivity: name, dim, '
+             'patches with type, bounds and mapping name, external faces, interfaces with minus face, plus face and orientation - any '
+             'number of patches and interfaces, any dimension 1-3 with interfaces, n-cubes without), roundtrip_fields / '
+             'roundtrip_interfaces, todict_normalize / todict_idempotent (the second export writes the same dictionary), '
+             'exportable_normalize (the re-read domain is exportable again). Tied to the code by a differential run that goes '
+             'through real HDF5/YAML files, plus an independent structural oracle (objects and generator specification, byte '
+             'comparison of a second export).',
+        note='Exportable = valid single NCube patch (plain or mapped) or well-formed multi-patch domain (computable predicate '
+             'exportableB, evaluated on every real domain of the run; that Domain.join produces such domains is checked by the '
+             'correspondence, not proved). YAML/HDF5 layer and str/int conversions are the identity (trusted, exercised with real '
+             'files). The logical twin of all-mapped domains is compared by the oracle only. Open finding: F(Omega) (one mapping '
+             'applied to an already joined domain) keeps logical interface names, so its second export differs in the connectivity key.',
+        technique='Lean 4 proof (loop invariant of join over the sorted connectivity, canonical-list lemmas shared with C14) + differential correspondence through real files',
+        design='6/C15'),
     'C19': dict(
         text='Lean 4 theorems over all trees of the exterior-calculus model (Model/Exterior.lean): d(d x) and '
              'delta(delta x) are literally zero for every well-formed argument (eval_isImg + eval_img_isZero => d_d_zero, '
@@ -20,6 +56,67 @@ CHECKS = {
         technique='Lean 4 proof by mutual structural induction on the expression tree + differential correspondence',
         design='6/C19'),
 }
+
+CHECKS['C05'] = dict(
+    text='Lean 4 theorem dEval_sound: for every expression tree of the supported scalar fragment (numbers, constants, '
+         'coordinates, functions, vector components, derivative chains, n-ary sums and products, integer / rational / '
+         'constant / variable powers, quotients, elementary functions of coordinate expressions) and every operator '
+         'dx..dx3, whenever the model of DifferentialOperator.eval returns a value, that value denotes D(argument) in '
+         'every commutative Q-algebra with commuting derivations (hence for all smooth functions and points); '
+         'corollaries: linearity, Leibniz, vanishing on constants, entry-wise action on vectors/matrices, order '
+         'independence (semantic for all operators, syntactic canonical form for logical ones), refusal of '
+         'unsupported nodes; the model of sympy.diff used for function-free arguments is proved sound too. The model '
+         'is tied to the code by a differential run on random trees and an oracle instantiating functions by '
+         'explicit expressions and comparing with sympy.diff.',
+    note='Trusted: Lean kernel (+propext/Classical.choice/Quot.sound); that smooth functions form a DRing (Schwarz) and '
+         'the classical derivative of real powers (a law of the structure); the correspondence harness and sympy '
+         'Add/Mul/Pow canonicalisation (used to compare model output with the implementation modulo ring axioms).',
+    technique='Lean 4 proof by mutual structural induction (differential-ring semantics) + differential correspondence',
+    design='6/C05')
+
+CHECKS['C20'] = dict(
+    text='Lean 4 theorems about a branch-for-branch model of expand_name_patterns and element_of/elements_of '
+         '(Model/Pattern.lean, strings as List Char, a hand matcher for exactly the _range regex): expand_spec - for '
+         'every pattern of an explicit grammar (names separated by commas and/or blanks, padding, trailing comma; each '
+         'name literal text interleaved with numeric a:b / :b and alphabetic x:y / :y ranges, optionally parenthesised) '
+         'the result is the independent denotation (ranges enumerate a..b-1 in decimal resp. the letters x..y inclusive '
+         'in a..zA..Z, items are concatenation-products with the first range varying slowest, names are concatenated in '
+         'order) in the shape decided by seq / trailing comma / expanded range / number of names; length and order '
+         'formulas; expand_escaped - a name written with the escapes backslash-comma/colon/blank expands to the single '
+         'name they stand for (invariant over the three turns of the marker loop); expand_errors - for every string and seq argument the exact conditions of "no symbols given", '
+         '"missing symbol between commas", the TypeError on a non-bool seq, the dead "missing symbol" check, and that '
+         'every other failure is a ValueError raised by a colon-bearing piece ("missing end range" iff it ends with the '
+         'colon); containers are expanded item-wise without seq, keeping their type; element_shape / elements_shape - '
+         'names, nesting, container type and component space of every created function for scalar, vector and product '
+         'spaces (zip semantics). The model is tied to the code by a three-way differential run (model vs '
+         'expand_name_patterns vs sympy.symbols) including the scanner against re.split with the regex extracted from '
+         'the source by ast, and an oracle with sympy.symbols as reference.',
+    note='Partial in one named respect: that the implementation agrees with sympy.symbols is established by correspondence '
+         'and oracle only (sympy\'s source is not modelled a second time). Escapes are in the model and in the '
+         'correspondence; expand_spec is stated for backslash-free patterns plus a separate theorem for escaped names. '
+         'Trusted: Lean kernel (+propext/Classical.choice/Quot.sound), the harness, Python str/int/re primitives as '
+         'modelled (ASCII int(), str.isspace table). For containers sympde documents that seq is ignored (sympy '
+         'propagates it): nesting compared with symbols(names), flattened names with symbols(names, seq=seq).',
+    technique='Lean 4 proof by induction on the pattern grammar (scanner correctness, denotational semantics) + three-way differential correspondence',
+    design='6/C20')
+
+CHECKS['C18'] = dict(
+    text='Lean 4 theorems about a branch-for-branch model of EssentialBC.__new__ and Equation.__new__ (Model/BC.lean): '
+         'classify_sound / classify_complete - the constructor accepts exactly the four admitted shapes u, u[i], u.n, '
+         'grad(u).n (Dot in either argument order) and stores exactly the prescribed order, unknown, constrained '
+         'components and normal flag; bad_lhs_refused; expand_faces - for every list of conditions on trial functions the '
+         'equation holds, in declaration order, one condition per face of each declared boundary (order of the union\'s '
+         'members kept) with identical lhs, rhs, order, unknown, components and normal flag; position_is_index - the '
+         'stored position is the index of the first trial function equal to the unknown; non_trial_refused (also through '
+         'Equation); lhs_rhs_kept; length formula. Tied to the code by a differential run on random systems (1-4 '
+         'scalar/vector unknowns of all space kinds, unions of 1-6 faces, malformed left-hand sides, wrong argument types) '
+         'and an oracle comparing equation.bc entry by entry with the declared conditions.',
+    note='Trusted: Lean kernel (+propext/Classical.choice/Quot.sound), the harness; two modelled facts about Dot.__new__ '
+         '(orders its arguments by str; raises TypeError on an indexed function) asserted by the correspondence; functions '
+         'compare by class and name (sympy). constraint= and NewtonIteration are not modelled; the in-place set_position '
+         'on the caller\'s object is filed under C12. One defect repaired (commit 0e602cd: u.n refused on Hdiv/Hcurl/L2).',
+    technique='Lean 4 proof by case analysis on the left-hand-side shapes and induction on the condition list + differential correspondence',
+    design='6/C18')
 
 NOT_YET = 'check not built yet in this round (design in DESIGN.md section 6); will be claimed when its model, theorems and correspondence exist'
 
